@@ -230,10 +230,14 @@ Section PropEval.
 Variable H : Z -> list Z -> list Z.
 Variable hk : bool.
 Variable v : ver.
+(** [uh]: also require the harness-side commitment check [hok] (the full property checker);
+    [uh = false] is the part of the checker that follows from agreement with the model. *)
+Variable uh : bool.
+Definition hok_ok (hok : bool) : bool := hok || negb uh.
 
 Definition root_matches (ls : list data) (len : Z) (rd : data) (hok : bool) : bool :=
   match mmr_root H v ls with
-  | Some d => data_eqb hk d rd && (len =? mmr_size (length ls)) && hok
+  | Some d => data_eqb hk d rd && (len =? mmr_size (length ls)) && hok_ok hok
   | None => false
   end.
 
@@ -257,7 +261,7 @@ Fixpoint prop_ops (i : nat) (full : bool) (ls : list data) (ops : list op) (obs 
       | OpAppend _, SAppend links len root rd hok =>
           list_eqb link_eqb links (expected_links (length ls)) &&
           (len =? mmr_size (length ls')) &&
-          (if check_step i (length ls') last then root_matches ls' len rd hok else hok) &&
+          (if check_step i (length ls') last then root_matches ls' len rd hok else hok_ok hok) &&
           prop_ops (S i) full ls' ops' obs'
       | OpTruncate, STrunc cnt len root rd hok =>
           match ls' with
@@ -265,7 +269,7 @@ Fixpoint prop_ops (i : nat) (full : bool) (ls : list data) (ops : list op) (obs 
           | _ =>
             (cnt =? mmr_size (length ls) - mmr_size (length ls')) &&
             (len =? mmr_size (length ls')) &&
-            (if check_step i (length ls') last then root_matches ls' len rd hok else hok) &&
+            (if check_step i (length ls') last then root_matches ls' len rd hok else hok_ok hok) &&
             prop_ops (S i) full ls' ops' obs'
           end
       | OpTruncate, SErr (ExpectedNode _) =>
@@ -290,7 +294,7 @@ Definition view_ok (H : Z -> list Z -> list Z) (hk : bool) (v : ver) (leaves : l
   let arr := mmr_array H v leaves in
   let Ts := mmr_trees leaves in
   (length =? mmr_size (List.length leaves)) &&
-  forallb (fun p => match lookup (fst p) arr with Some e => entry_eqb hk e (snd p) | None => false end)
+  forallb (fun p => match lookup (fst p) arr with Some e => entry_eqb (hk || match e_kind e with Leaf => true | _ => false end) e (snd p) | None => false end)
           (peaks ++ extra) &&
   list_eqb Z.eqb (map fst peaks) (peak_positions 0 Ts) &&
   match ops with
@@ -315,11 +319,12 @@ Fixpoint chain_scan (v : ver) (b h0 : Z) (n : Z) (ops : list op) : bool :=
   | [] => true
   | OpAppend d :: r =>
       wf_data_b v d && (d_branch d =? b) && (d_sh d =? h0 + n) && (d_eh d =? h0 + n) &&
+      (mmr_size (Z.to_nat (n + 1)) <=? u32_max) &&
       chain_scan v b h0 (n + 1) r
-  | OpTruncate :: r => chain_scan v b h0 (n - 1) r
+  | OpTruncate :: r => (mmr_size (Z.to_nat (n - 1)) <=? u32_max) && chain_scan v b h0 (n - 1) r
   end.
 Definition all_chain (v : ver) (leaves : list data) (ops : list op) : bool :=
-  chain_b v leaves &&
+  chain_b v leaves && (mmr_size (length leaves) <=? u32_max) &&
   match leaves with
   | [] => false
   | d :: _ => chain_scan v (d_branch d) (d_sh d) (Z.of_nat (length leaves)) ops
@@ -331,7 +336,7 @@ Definition is_full (leaves : list data) (peaks extra : list (Z * entry)) : bool 
   | _, _, _ => false
   end.
 
-Definition prop_case (c : case) : bool :=
+Definition prop_gen (uh : bool) (c : case) : bool :=
   match c with
   | CCsRead b o =>
       (* canonical: an accepted prefix is exactly the canonical encoding of the value *)
@@ -390,12 +395,17 @@ Definition prop_case (c : case) : bool :=
       if all_chain v leaves ops && view_ok (Htbl tbl) hk v leaves length peaks extra ops then
         match n with
         | NOk len root rd hok =>
-            root_matches (Htbl tbl) hk v leaves len rd hok &&
-            prop_ops (Htbl tbl) hk v 0 (is_full leaves peaks extra) leaves ops obs
+            root_matches (Htbl tbl) hk v uh leaves len rd hok &&
+            prop_ops (Htbl tbl) hk v uh 0 (is_full leaves peaks extra) leaves ops obs
         | NPanic => false
         end
       else true
   end.
+
+(** the full property checker, and the part of it that does not rest on the harness-side
+    commitment check *)
+Definition prop_case (c : case) : bool := prop_gen true c.
+Definition prop_main (c : case) : bool := prop_gen false c.
 
 (** Known-finding classes (0 = none).
     1 = the combined counters do not fit: some per-pool transaction total exceeds [u64::MAX] or
